@@ -62,6 +62,15 @@ CLAIMED.update({
     },
 })
 
+CLAIMED.update({
+    "C01": {
+        "text": "Coq theorems (closed under the global context) over a model in which every unwrap/expect/index/assert/panic! site of the Rust is an explicit Panic result: for EVERY history of host calls from a fresh interpreter no call panics (C01_no_panic); the invariant that makes it so (all stored locations name existing lines, indexes agree, arrays have as many cells as their dimensions say) is preserved by every call (C01_inv); every failure is an error value after which the state is Idle, lines are accepted and the caret rendering succeeds (C01_errors_are_values). Native stack exhaustion is covered by the nesting cap (part of model and correspondence) plus process-isolated probes; wedge-freedom by per-call timeouts. Tied to the code by history correspondence (outcome, state, outputs, caret, message, snapshot) and a crash/abort/wedge oracle.",
+        "design_ref": "DESIGN.md 6 C01",
+        "note": NOTE + "PARTIAL on the runtime side: that 64 nesting levels fit the native stack is probed (debug build, 8 MiB main-thread stack), not proved; OutOfFuel-freedom of the model (= every call returns) is validated by the correspondence, not proved.",
+        "technique": "Coq proof: inductive well-formedness invariant + panic-freedom over all evaluators and host-call histories; differential correspondence + crash/wedge oracle with isolated deep-nesting probes",
+    },
+})
+
 _TODO = "check under construction in this session; not claimed until its theorems and correspondence are in place"
-NOT_CLAIMED = {p: _TODO for p in ["C01", "C03", "C05", "C06", "C07", "C08", "C09", "C12", "C14",
+NOT_CLAIMED = {p: _TODO for p in ["C03", "C05", "C06", "C07", "C08", "C09", "C12", "C14",
                                   "C15", "C19", "C20"]}
